@@ -36,7 +36,7 @@ struct VC { uint32_t c[MAXT]; VC() { std::memset(c, 0, sizeof(c)); }
 // (kinds selected by guided_kinds, a bit mask over Kind); the scheduler runs that thread whenever it is
 // enabled and otherwise the lowest-numbered enabled thread (e.g. main spawning the threads).  This is how
 // a TLC behaviour of an implementation-shaped spec (one action per counted operation) is forced onto the code.
-enum Strategy { RANDOM = 0, PCT = 1, SCRIPT = 2, RUNFIRST = 3, GUIDED = 4 };
+enum Strategy { RANDOM = 0, PCT = 1, SCRIPT = 2, RUNFIRST = 3, GUIDED = 4, STICKY = 5 };
 
 struct Config {
     int strategy = RANDOM;
